@@ -182,3 +182,7 @@ def run(S):
     from checks import C04
     S.rule('R-RBK', 'roll-back closures restore each container to the size recorded for that container (shared with C04)')
     C04.rule_rbk_sizes(S)
+    # mechanisms this property rests on (checks/shared.py)
+    from checks import shared
+    shared.version_word(S)
+    shared.descent(S)
